@@ -813,9 +813,13 @@ def _persist(run, P):
             if isinstance(n, ast.If) and isinstance(n.test, ast.Call):
                 tgt = P.resolve_name(gfn, dotted(n.test.func) or "")
                 if isinstance(tgt, Func) and tgt.fq == "dagrt.utils.is_state_variable":
-                    b = ast.unparse(n.body[0]) if n.body else ""
-                    o = ast.unparse(n.orelse[0]) if n.orelse else ""
-                    ok = "name_global" in b and "name_local" in o
+                    b = "\n".join(ast.unparse(s_) for s_ in n.body)
+                    rest = n.orelse
+                    if not rest and n in gfn.node.body:
+                        rest = gfn.node.body[gfn.node.body.index(n) + 1:]
+                    o = "\n".join(ast.unparse(s_) for s_ in rest)
+                    ok = "name_global" in b and "name_local" not in b \
+                        and "name_local" in o and "name_global" not in o
         run.ob("C01.persist", gfn, gfn.node, ok,
                construct="is_state_variable(name) -> global storage, else local storage",
                why="persistent variables live in instance/state storage, per-step "
